@@ -71,7 +71,7 @@ theorem negative_length_rejected (t : UInt8) (n : Nat) (rest : Bytes) (ht : t = 
 /-- Non-vacuity: a successful decode with trailing bytes, and a list whose declared count
 (2^31-1 four-byte elements) lies far beyond the input: the seeking skip "succeeds" past
 the end, yet forcing fails, so no truncated input is accepted. -/
-example : ∃ v, decode 15 [8, 0, 0, 0, 1, 0, 0, 0, 5, 0xAA] = .ok (v, [0xAA]) := ⟨.list 8 [.i32 5], by decide⟩
+example : ∃ v, decode 15 [8, 0, 0, 0, 1, 0, 0, 0, 5, 0xAA] = .ok (v, [0xAA]) := ⟨.list 8 [.i32 5], by rfl⟩
 example : (skipTop true 15 [8, 0x7f, 0xff, 0xff, 0xff]).toBool = true ∧
     (decodeLazyForced 15 [8, 0x7f, 0xff, 0xff, 0xff]).toBool = false ∧
     (skipTop false 15 [8, 0x7f, 0xff, 0xff, 0xff]).toBool = false := by decide
